@@ -21,16 +21,18 @@ import (
 
 // stackEnv collects what building a stack creates.
 type stackEnv struct {
-	imm       bool
-	mems      []*ocimem.Registry
-	closers   []func()
-	srvOpts   ociserver.Options
-	pageSize  int
-	wrapMem   func(ociregistry.Interface) ociregistry.Interface // e.g. a recording backend
-	inflight  atomic.Int64
-	curOp     atomic.Int64 // number of the client-side call being executed
-	subPrefix string       // set when the stack contains sub(...): names underneath carry this prefix
-	minChunk  int          // chunk size the registry underneath advertises (0: ocimem's 8 KiB)
+	imm      bool
+	mems     []*ocimem.Registry
+	closers  []func()
+	srvOpts  ociserver.Options
+	pageSize int
+	wrapMem  func(ociregistry.Interface) ociregistry.Interface // e.g. a recording backend
+	// wrapHandler, if set, wraps the handler of every HTTP hop (innermost hop first)
+	wrapHandler func(http.Handler) http.Handler
+	inflight    atomic.Int64
+	curOp       atomic.Int64 // number of the client-side call being executed
+	subPrefix   string       // set when the stack contains sub(...): names underneath carry this prefix
+	minChunk    int          // chunk size the registry underneath advertises (0: ocimem's 8 KiB)
 }
 
 // smallChunks wraps a registry so that its upload writers report a small ChunkSize.
@@ -172,7 +174,10 @@ func (env *stackEnv) build(s string) (ociregistry.Interface, string, error) {
 				return nil, "", fmt.Errorf("unknown http option %q", o)
 			}
 		}
-		h := ociserver.New(args[0], &so)
+		var h http.Handler = ociserver.New(args[0], &so)
+		if env.wrapHandler != nil {
+			h = env.wrapHandler(h)
+		}
 		srv := httptest.NewServer(http.HandlerFunc(func(w http.ResponseWriter, req *http.Request) {
 			env.inflight.Add(1)
 			defer env.inflight.Add(-1)
